@@ -116,6 +116,7 @@ type Violation struct {
 	Sig     string `json:"sig"`
 	Count   int64  `json:"count"` // how many enumerated cases were attributed to this signature
 	Shrinks int    `json:"shrinks"`
+	Unit    string `json:"unit,omitempty"` // the unit whose enumeration reached the case (history replay)
 }
 
 // Signature of a minimised violation.
